@@ -47,7 +47,15 @@ try:
     open(out + '/patch.diff', 'w').write(newdiff)
     shutil.copy(demo, out + '/demo.py')
     notes = os.path.join(src, 'notes.md')
-    if os.path.exists(notes): shutil.copy(notes, out + '/agent_notes.md')
+    if not os.path.exists(notes): notes = os.path.join(src, 'notes_%s.md' % a.which)
+    if os.path.exists(notes):
+      shutil.copy(notes, out + '/agent_notes.md')
+      if not a.needs:
+        ls_ = [l.strip() for l in open(notes) if 'need' in l.lower() or 'manifest' in l.lower()]
+        a.needs = ' '.join(ls_)[:900] or 'see agent_notes.md'
+      if not a.breaks:
+        ls_ = [l.strip() for l in open(notes) if 'break' in l.lower() or 'clause' in l.lower() or 'violat' in l.lower()]
+        a.breaks = ' '.join(ls_)[:900] or 'see agent_notes.md'
     meta = {'property': a.prop, 'variant': a.name or a.which, 'files': files, 'breaks': a.breaks, 'needs_to_manifest': a.needs,
             'base_commit': sh('git -C /repo rev-parse --short HEAD').stdout.strip(),
             'confirmed': time.strftime('%Y-%m-%d %H:%M'),
